@@ -535,9 +535,9 @@ def c15(tier, rep):
         rep.traces += len(uniq)
         for inv in sorted(set(res.invariant_violations)):
             rep.violation({"kind": "spec-invariant", "invariant": inv}, {"engine": "Sessions", "what": f"{inv} violated", "tlc_tail": res.out[-3000:]})
-        for s in uniq:
+        for k, s in enumerate(uniq):
             rep.case(("schedule", json.dumps(s["hist"]), tuple(x[1] for x in s["sched"])))
-            for b in S.replay_schedule(sub, s) + (S.replay_schedule(sub, s, own_matcher=False) if len(seen) % 5 == 0 else []):
+            for b in S.replay_schedule(sub, s) + (S.replay_schedule(sub, s, own_matcher=False) if k % 3 == 0 else []):
                 if str(b.get("what", "")).startswith("machinery"):
                     from common import MachineryError
                     raise MachineryError(b["what"])
